@@ -92,6 +92,18 @@ class Gen(object):
         self.weights = w
         self.reuse = rng.choice([0.5, 0.7, 0.85, 0.95])
         self.str_args = self.profile in ("hyphe-ascii", "adversarial-text") and rng.random() < 0.2
+        self.encoding = "latin-1" if (self.str_args and rng.random() < 0.3) else "utf-8"
+        self.str_prob = 0.5
+        if self.encoding == "latin-1":
+            # non-ASCII text given as str must be stored under its latin-1 bytes, and the same page
+            # given as bytes must be the same page
+            self.str_prob = 0.6
+            extra = []
+            for b0 in self.pool[:3]:
+                st = stems(b0)
+                extra.append(b"".join(st[:-1]) + b"p:caf\xe9|" if len(st) > 1 else b0 + b"p:caf\xe9|")
+                extra.append(b0 + b"p:\xe9cole|")
+            self.pool.extend(x for x in extra if x not in self.pool)
         # rule configuration
         if self.profile == "any-byte":
             self.default = rng.choice(["domain", "never"])
@@ -104,9 +116,12 @@ class Gen(object):
                 if a is not None and a not in [x for x, _ in self.rules]:
                     self.rules.append((a, rng.choice(["domain", "subdomain", "path1", "path2", "path1"])))
         self.backend = backend or "sim"
+        self.yield_every = rng.choice([None, None, None, 1, 1, 2, 7])
         # many webentities: the id counter crosses byte boundaries of its header field
+        self.wide = prop in ("C01", "C02", "C04", "C05", "C07", "C08", "C09", "C13", "C19", "C20") and rng.random() < (0.012 if tier == "quick" else 0.02)
+        self.large = self.wide and prop in ("C01", "C04", "C05", "C07", "C08", "C13") and rng.random() < 0.25
         self.many_ids = (prop == "C12" and rng.random() < (0.02 if tier == "quick" else 0.04)) or (prop == "C11" and rng.random() < (0.006 if tier == "quick" else 0.012))
-        self.bulk = prop in ("C03", "C07", "C08", "C10", "C20") and rng.random() < (0.01 if tier == "quick" else 0.03)
+        self.bulk = prop in ("C03", "C07", "C08", "C10", "C15", "C18", "C20") and rng.random() < ((0.01 if tier == "quick" else 0.03) if prop != "C18" else 0.06)
         self.created_prefixes = []  # prefixes named in webentity ops so far (for refs)
 
     # ------------------------------------------------------------------
@@ -129,9 +144,9 @@ class Gen(object):
         return x
 
     def e(self, b):
-        if self.str_args and self.rng.random() < 0.5:
+        if self.str_args and self.rng.random() < self.str_prob:
             try:
-                return "u:" + b.decode("utf-8")
+                return "u:" + b.decode(self.encoding)
             except UnicodeDecodeError:
                 pass
         return enc(b)
@@ -154,6 +169,23 @@ class Gen(object):
         k = wchoice(r, self.weights)
         if k == "add_page":
             return {"op": k, "lru": self.e(self.lru()), "crawled": r.random() < 0.4}
+        if k == "add_pages" and self.wide and r.random() < 0.5:
+            # a wide directory: many numbered pages below one node
+            self.wide = False
+            base = r.choice(self.pool)
+            st = stems(base)
+            base = b"".join(st[: max(1, min(len(st), r.choice([2, 3, 4])))])
+            seq = {"op": "add_pages_seq", "base": enc(base), "count": r.choice([60, 120, 260]), "order": r.choice(["asc", "desc", "shuffled"]), "shuffle_seed": r.getrandbits(16), "crawled": r.random() < 0.5}
+            if self.large:
+                # beyond the library's own thresholds (1000 / 2000 iterations between yields)
+                seq["count"], seq["order"] = r.choice([(1100, "asc"), (1100, "desc"), (2100, "shuffled"), (2100, "shuffled")])
+            for x in r.sample(range(seq["count"]), 3) + [seq["count"] - 1, 0]:
+                self.pool.append(base + b"p:n%04d|" % x)
+                if r.random() < 0.5:
+                    self.created_prefixes.append(base + b"p:n%04d|" % x)
+            return seq
+        if k == "add_pages" and r.random() < 0.03:
+            return {"op": k, "lrus": [], "crawled": r.random() < 0.5}
         if k == "add_pages":
             return {"op": k, "lrus": [self.e(self.lru()) for _ in range(r.randint(1, 5))], "crawled": r.random() < 0.5}
         if k == "add_links" and self.bulk and r.random() < 0.5:
@@ -162,7 +194,9 @@ class Gen(object):
             self.bulk = False
             tgt = self.lru()
             links = [[enc(self.lru()), enc(tgt)] for _ in range(r.choice([1, 2, 3]))]
-            return {"op": k, "links": links, "repeat": r.choice([2100, 4097, 5001])}
+            return {"op": k, "links": links, "repeat": r.choice([2100, 4097, 5001]) if self.prop not in ("C15", "C18") else (r.choice([260, 300]) if self.prop == "C18" else r.choice([300, 600, 2100]))}
+        if k == "add_links" and r.random() < 0.03:
+            return {"op": k, "links": []}
         if k == "add_links":
             n = r.choice([1, 1, 2, 3, 5, 8])
             links = []
@@ -173,6 +207,12 @@ class Gen(object):
                 if r.random() < 0.25:
                     links.append([self.e(s), self.e(t)])
             return {"op": k, "links": links}
+        if k == "batch" and r.random() < 0.04:
+            x = r.random()
+            if x < 0.4:
+                return {"op": k, "data": [], "yf": 50}
+            s = self.lru()
+            return {"op": k, "data": [[enc(s), [enc(s)] * r.choice([1, 2, 3])]], "yf": r.choice([1, 50])}  # only self-links
         if k == "batch":
             data = []
             srcs = []
@@ -254,6 +294,12 @@ class Gen(object):
             p = self.ref() if r.random() < 0.7 else self.prefix()
             self.created_prefixes.append(p)
             return {"op": k, "prefix": self.e(p), "ref": enc(self.ref()), "mode": r.choice(["noweid", "right", "right", "wrong"])}
+        if k == "add_rule" and self.rules and r.random() < 0.35:
+            a, nm = r.choice(self.rules)
+            o = {"op": k, "anchor": enc(a), "rule": nm}
+            if r.random() < 0.3:
+                o["drive"] = "until_done"
+            return o
         if k == "add_rule":
             a = self.anchor()
             if a is None:
@@ -268,8 +314,11 @@ class Gen(object):
                 a = self.anchor()
                 if a is not None and a not in [dec(x) for x, _ in rules]:
                     rules.append([enc(a), r.choice(["domain", "path1", "path2", "subdomain"])])
-            self.rules = [(dec(a), n) for a, n in rules]
             self.created_prefixes = []
+            if r.random() < 0.3:
+                # clear() without a rules argument: the trie is emptied, the in-RAM registry is kept
+                return {"op": "clear", "default": r.choice([None, None, "domain"]), "rules": None}
+            self.rules = [(dec(a), n) for a, n in rules]
             return {"op": "clear", "default": r.choice([None, None, "domain", "path1"]), "rules": rules}
         if k == "remove_rule":
             a = self.anchor()
@@ -296,6 +345,8 @@ class Gen(object):
 
     def config(self, **extra):
         cfg = {
+            "encoding": self.encoding,
+            "yield_every": self.yield_every,
             "backend": self.backend,
             "profile": self.profile,
             "default": self.default,
